@@ -43,6 +43,7 @@ type Job struct {
 	Pkg      string           // package path
 	Params   map[string]int64 // vndParam values
 	Concrete []InputVal       // non-nil: run concretely with these inputs (translator validation)
+	Stubs    map[string]string // per-job function replacements
 	HangIsViolation bool
 
 	mu          sync.Mutex
@@ -117,6 +118,37 @@ type Run struct {
 	Solver     map[string]*SolverStats
 	EngineErrs []string
 	stop       bool
+	active     map[int]string
+	started    time.Time
+}
+
+// hardStop is the instant after which running paths are abandoned.
+func (r *Run) hardStop() time.Time {
+	if r.Cfg.Deadline.IsZero() {
+		return time.Time{}
+	}
+	return r.Cfg.Deadline.Add(20 * time.Second)
+}
+
+// tmo clips a solver timeout to the time left before the hard stop.
+func (r *Run) tmo(ms int) int {
+	hs := r.hardStop()
+	if hs.IsZero() {
+		return ms
+	}
+	left := int(time.Until(hs) / time.Millisecond)
+	if left < 200 {
+		left = 200
+	}
+	if left < ms {
+		return left
+	}
+	return ms
+}
+
+func (r *Run) pastHardStop() bool {
+	hs := r.hardStop()
+	return !hs.IsZero() && time.Now().After(hs)
 }
 
 func NewRun(prog *ssa.Program, module string, cfg Config) *Run {
@@ -124,6 +156,7 @@ func NewRun(prog *ssa.Program, module string, cfg Config) *Run {
 		stubsNoted: map[string]bool{}, reach: map[string]int{}, funcs: map[string]bool{},
 		violCount: map[string]int{}, Solver: map[string]*SolverStats{}}
 	r.cond = sync.NewCond(&r.mu)
+	r.active = map[int]string{}
 	return r
 }
 
@@ -177,6 +210,10 @@ func (r *Run) stubFor(name string) intrinsicFn {
 	if !ok {
 		return nil
 	}
+	return r.stubTarget(name, target)
+}
+
+func (r *Run) stubTarget(name, target string) intrinsicFn {
 	k := strings.LastIndex(target, ".")
 	pkg := r.Prog.ImportedPackage(target[:k])
 	if pkg == nil {
@@ -290,7 +327,10 @@ func (ex *Explorer) setModel(i *interpreter, m Model, extraHolds bool) {
 // feasible2 decides which directions of c are feasible under the current
 // path condition. "unknown" keeps a direction alive.
 func (ex *Explorer) feasible2(i *interpreter, c *Term) (canT, canF bool) {
-	tmo := ex.run.Cfg.FeasTimeoutMs
+	tmo := ex.run.tmo(ex.run.Cfg.FeasTimeoutMs)
+	if ex.run.pastHardStop() {
+		panic(pathAbort{"deadline", "time budget exhausted"})
+	}
 	vars := ex.inputVars()
 	known := 0 // 1: true side known feasible, 2: false side
 	if ex.modelOK(i) {
@@ -419,7 +459,7 @@ func (ex *Explorer) assertCond(i *interpreter, c *Term, label string, where stri
 	}
 	nc := i.b.Not(c)
 	s := ex.solverFor(i.pc, nc)
-	res, m := s.Check(i.pc, nc, ex.run.Cfg.ProveTimeoutMs, ex.inputVars())
+	res, m := s.Check(i.pc, nc, ex.run.tmo(ex.run.Cfg.ProveTimeoutMs), ex.inputVars())
 	if res == Unsat && ex.run.Cfg.CrossCheck && !nc.fp {
 		if ex.z3b == nil {
 			ex.z3b, _ = NewSolver(bvCrossSolver())
@@ -430,6 +470,15 @@ func (ex *Explorer) assertCond(i *interpreter, c *Term, label string, where stri
 				ex.run.engineErr(fmt.Sprintf("solver disagreement on %s/%s: primary unsat, cross-check sat", j.Key(), label))
 				res = Unknown
 			}
+		}
+	}
+	if res == Unknown && !nc.fp && !pcUsesFP(i.pc) {
+		// second opinion from the other z3 release before giving up
+		if ex.z3b == nil {
+			ex.z3b, _ = NewSolver(bvCrossSolver())
+		}
+		if ex.z3b != nil {
+			res, m = ex.z3b.Check(i.pc, nc, ex.run.tmo(ex.run.Cfg.ProveTimeoutMs), ex.inputVars())
 		}
 	}
 	switch res {
@@ -599,6 +648,7 @@ func init() {
 	vndIntrinsics["vndIteInt"] = func(fr *frame, args []value) value {
 		return fr.i.b.Ite(args[0].(*Term), args[1].(*Term), args[2].(*Term))
 	}
+	vndIntrinsics["vndIteU64"] = vndIntrinsics["vndIteInt"]
 	vndIntrinsics["vndFile"] = func(fr *frame, args []value) value {
 		i := fr.i
 		if i.ex.files == nil {
@@ -738,6 +788,30 @@ func (r *Run) Explore() {
 	if n < 1 {
 		n = 1
 	}
+	r.started = time.Now()
+	done := make(chan struct{})
+	if os.Getenv("VERIF_PROGRESS") != "" || r.Cfg.Debug {
+		go func() {
+			t := time.NewTicker(20 * time.Second)
+			defer t.Stop()
+			for {
+				select {
+				case <-done:
+					return
+				case <-t.C:
+					r.mu.Lock()
+					var act []string
+					for _, a := range r.active {
+						act = append(act, a)
+					}
+					sort.Strings(act)
+					fmt.Fprintf(os.Stderr, "[%4.0fs] queue=%d pending=%d active=%v\n", time.Since(r.started).Seconds(), len(r.queue), r.pending, act)
+					r.mu.Unlock()
+				}
+			}
+		}()
+	}
+	defer close(done)
 	for w := 0; w < n; w++ {
 		wg.Add(1)
 		go func(w int) {
@@ -763,7 +837,13 @@ func (r *Run) Explore() {
 				if it == nil {
 					return
 				}
+				r.mu.Lock()
+				r.active[w] = it.job.Key()
+				r.mu.Unlock()
 				forks := ex.runPath(it)
+				r.mu.Lock()
+				delete(r.active, w)
+				r.mu.Unlock()
 				r.finish(it, forks)
 			}
 		}(w)
@@ -800,6 +880,7 @@ func (r *Run) newExplorer() (ex *Explorer, err error) {
 		b:              NewBuilder(),
 		globals:        map[*ssa.Global]*value{},
 		intrinsicCache: map[*ssa.Function]intrinsicFn{},
+		fnNames:        map[*ssa.Function]string{},
 		maxSteps:       1 << 40,
 		maxDepth:       r.Cfg.MaxDepth,
 		ex:             ex,
@@ -931,6 +1012,8 @@ func (ex *Explorer) runPath(it *workItem) (forks [][]decision) {
 		j.PathsOK++
 	case "assume", "infeasible":
 		j.Pruned++
+	case "deadline":
+		j.Truncated = true
 	case "steps", "depth":
 		j.StepsOut++
 		j.Unsupported[outcome+": "+msg]++
@@ -1051,4 +1134,13 @@ func bvCrossSolver() string {
 		return "z3-new"
 	}
 	return "z3"
+}
+
+func pcUsesFP(pc []*Term) bool {
+	for _, c := range pc {
+		if c.fp {
+			return true
+		}
+	}
+	return false
 }
